@@ -104,7 +104,7 @@ def bool_facts(e, pol):
 
 
 class PathFacts:
-    def __init__(self, prog, fa, kill_summaries=None, record_calls=None, cap=2000, history=False, record_stores=None, entry=0):
+    def __init__(self, prog, fa, kill_summaries=None, record_calls=None, cap=2000, history=False, record_stores=None, entry=0, norun=False):
         self.prog = prog
         self.fa = fa
         self.fn = fa.fn
@@ -128,7 +128,8 @@ class PathFacts:
         self.loop_free = all((y == entry and entry != 0) for (x, y) in self.cfg.back_edges() if x in region and y in region)
         # parameters of shared reference type: their referents are immutable during the call
         self.immut = frozenset(i + 1 for i, t in enumerate(self.fn.inputs) if t.startswith('&') and not t.startswith('&mut'))
-        self.run()
+        if not norun:
+            self.run()
 
     # ---- variants
     def variant_names(self, ty):
@@ -881,4 +882,23 @@ def field_stores(fa, field, adt_suffix=None):
         a, n = fs[-1]
         if n == field and (adt_suffix is None or a.endswith(adt_suffix)):
             out.append((pe, val, site))
+    return out
+
+
+def local_paths(prog, fa, start, stops, limit=4096):
+    """explicit enumeration of the acyclic paths from block `start` to any block of `stops`, with the branch facts of the edges taken
+    (no fixpoint, no kills: for small decision regions such as one compound condition).  Returns [(stop block, frozenset(facts))]."""
+    pf = PathFacts(prog, fa, history=True, norun=True)
+    out = []
+    stack = [(start, frozenset(), frozenset([start]))]
+    while stack and len(out) < limit:
+        b, fs, seen = stack.pop()
+        if b in stops and b != start:
+            out.append((b, fs))
+            continue
+        for (y, lab) in fa.cfg.succ[b]:
+            if y in seen:
+                continue
+            ef = frozenset(f for f in pf.edge_facts(b, lab) if not str(f[0]).startswith('~'))
+            stack.append((y, fs | ef, seen | {y}))
     return out
